@@ -376,6 +376,18 @@ def write_evidence(prop, tier, seed, level, agg, runs, wall_s, det, known_seen, 
     from . import registry
 
     sc = registry.scenario(prop)
+    # C12: (abstract state = tuple of tier names, op, outcome) coverage table -> summary
+    triples = {k: v for k, v in extra.items() if k.startswith("c12:(")}
+    if triples:
+        for k in triples:
+            del extra[k]
+        states = {k.split(":")[1] for k in triples}
+        in_universe = {s for s in states if "zz" not in s}
+        extra["c12_abstract_states_reached"] = len(states)
+        extra["c12_abstract_states_reached_within_4_names"] = len(in_universe)
+        extra["c12_abstract_states_possible_within_4_names"] = 65
+        extra["c12_state_op_outcome_triples_reached"] = len(triples)
+        extra["c12_rarest_triples"] = dict(sorted(triples.items(), key=lambda kv: (kv[1], kv[0]))[:12])
     cov = {
         "evaluations": runs,
         "distinct_nontrivial": len(agg["nontriv"]),
